@@ -245,6 +245,8 @@ class HavocLocals(LoopSpec):
                 for p in prev:
                     it.ctx.assume(v.t != p)
                 prev.append(v.t)
+                for c in it.str_labels.values():
+                    it.ctx.assume(v.t != c)
 
     def inv(self, it, env, k):
         return []
